@@ -309,7 +309,19 @@ D22 == [parts |-> <<T("GSUB5:"), T("class :x: = [A]"), NL, T("class :x: = [A]"),
         mean  |-> <<Lk(5, {}, <<[k |-> "ctx2", cov |-> <<1>>, cls |-> <<<<1, 1>>>>,
                      rules |-> << <<>>, <<[in |-> <<>>, act |-> <<Act(1, 0)>>]>> >>]>>)>>]
 
-Descs == <<D1, D2, D3, D4, D5, D6, D7, D8, D9, D10, D11, D12, D13, D14, D15, D16, D17, D18, D19, D20, D21, D22>>
+\* the same quoted string in several places (backtrack, lookahead, a second rule, a later lookup): every occurrence
+\* means the same glyphs, in reading order; the backtrack is STORED nearest glyph first
+D23 == [parts |-> <<T("GSUB6:"), T("\"AB\" | C | \"AB\" -> 1@0 , \"AB\" | D | E -> 1@0"), NL,
+                    T("GSUB4:"), T("\"AB\" -> X"), NL,
+                    T("GSUB6:"), T("\"ABC\" | D | \"ABC\" -> 2@0"), NL>>,
+        mean  |-> <<Lk(6, {}, <<[k |-> "cc1", map |-> <<
+                       <<3, <<[back |-> Rev(<<1, 2>>), in |-> <<>>, ahead |-> <<1, 2>>, act |-> <<Act(1, 0)>>]>>>>,
+                       <<4, <<[back |-> Rev(<<1, 2>>), in |-> <<>>, ahead |-> <<5>>, act |-> <<Act(1, 0)>>]>>>> >>]>>),
+                    Lk(4, {}, <<[k |-> "ligature", map |-> <<<<1, <<<<<<2>>, 24>>>>>>>>]>>),
+                    Lk(6, {}, <<[k |-> "cc1", map |-> <<
+                       <<4, <<[back |-> Rev(<<1, 2, 3>>), in |-> <<>>, ahead |-> <<1, 2, 3>>, act |-> <<Act(2, 0)>>]>>>> >>]>>)>>]
+
+Descs == <<D23, D1, D2, D3, D4, D5, D6, D7, D8, D9, D10, D11, D12, D13, D14, D15, D16, D17, D18, D19, D20, D21, D22>>
 MayFail(d) == "mayfail" \in DOMAIN d
 
 \* coverage tables number their glyphs 0, 1, 2, ... in increasing glyph order, without gaps
